@@ -9,7 +9,7 @@
    * Unsupported opcodes are consumed: they decode to INVALID, which only logs a warning.
    * Short memories / nil IO: the Memory model returns arbitrary bytes (no law), the IO-absent case is part of the state
      (C15 covers the bundled types' own bounds).  Run returns once its program halts: C08. *)
-From Z80V Require Import Proofs.SpecFacts.
+From Z80V Require Import Proofs.SpecFacts Proofs.Iter.
 
 Theorem C12_Step_total_and_specified : forall cpu, WF cpu -> Step cpu = spec_step impl_unspec cpu.
 Proof. exact Step_ok. Qed.
@@ -41,3 +41,25 @@ Theorem C12_unimplemented_decode_to_invalid :
   (count_impl decode_ed, count_impl decode_idx, count_impl decode_idxcb) = (58, 151, 32).
 Proof. vm_compute. reflexivity. Qed.
 Print Assumptions C12_unimplemented_decode_to_invalid.
+
+(* ---- the whole statement: no Go run-time panic in any number of Steps ----
+   EvPanic is the event go2coq emits wherever Go would panic (index out of range, nil dereference). *)
+Theorem C12_no_panic_ever : forall n cpu, WF cpu -> g_Memory cpu = UserMem ->
+  npanics (trace (g_W (iter n cpu))) = npanics (trace (g_W cpu)).
+Proof. exact iter_no_panic. Qed.
+Print Assumptions C12_no_panic_ever.
+(* one step of the specification, for every safe memory (the user's, or the mode-0 overlay at any PC with any non-empty
+   data) and every pending request *)
+Theorem C12_step_no_panic : forall u cpu, is16 (g_PC cpu) -> mem_safe (g_Memory cpu) ->
+  npanics (trace (g_W (spec_step u cpu))) = npanics (trace (g_W cpu)).
+Proof. exact spec_step_no_panic. Qed.
+Print Assumptions C12_step_no_panic.
+Theorem C12_overlay_is_safe : forall pc data, is16 pc -> data <> [] -> mem_safe (Im0Mem (im0_overlay pc data)).
+Proof. exact overlay_safe. Qed.
+Print Assumptions C12_overlay_is_safe.
+(* Step keeps every field within its Go type, so the hypothesis WF of every theorem here holds along any execution *)
+Theorem C12_states_stay_well_formed : forall n cpu, WF cpu -> WF (iter n cpu).
+Proof. exact iter_WF. Qed.
+Print Assumptions C12_states_stay_well_formed.
+Example C12_premises_hold : WF cpu0 /\ g_Memory cpu0 = UserMem.
+Proof. split; [exact cpu0_WF | reflexivity]. Qed.
